@@ -199,6 +199,17 @@ def converter_facts(repo, name):
     rec = [e for e in unp if e not in hdr]
     if len(hdr) != 1 or len(rec) != 1:
         raise AnalysisError(f"{name}: expected one header and one record struct.unpack")
+    # `"f" * max(n_features, 0)`: repeating a string a negative number of times gives the empty string anyway
+    import dataclasses as _dc
+
+    def unclamp(t):
+        if not isinstance(t, tuple) or not t:
+            return t
+        if t[0] == "max" and len(t[1]) == 2 and ("const", 0) in t[1]:
+            other = [x for x in t[1] if x != ("const", 0)][0]
+            return unclamp(other)
+        return tuple(unclamp(x) if isinstance(x, tuple) else x for x in t)
+    rec = [_dc.replace(e, args=tuple(unclamp(a) for a in e.args), value=unclamp(e.value)) for e in rec]
     facts["header_format"] = hdr[0].args[0]
     H = hdr[0].value
     R = rec[0].value
@@ -262,6 +273,8 @@ def converter_facts(repo, name):
             facts["row"] = _through_rows(obj[1], T, obj[2][0][0], obj[2][0][1])
             facts["row_from_listcomp"] = True
     facts["row"] = _unlist_stars(facts["row"])
+    if facts["row"] is not None:
+        facts["row"] = unclamp(facts["row"])
     facts["walker"] = w
     facts["fi"] = fi
     return facts
@@ -337,6 +350,10 @@ def check_converters(rep, repo):
                 ft = d.get("features")
                 while ft is not None and ft[0] == "alloc" and ft[1] == "builtin.list" and len(ft[2]) == 1:
                     ft = ft[2][0]
+                # [float(v) for v in data[2:]]: the 'f' fields are floats already
+                if ft is not None and ft[0] == "listcomp" and len(ft[2]) == 1 and not ft[2][0][2] and ft[2][0][0] == feats \
+                        and ft[1] in (("iter", feats, ft[2][0][1]), ("call", ("builtin", "float"), (("iter", feats, ft[2][0][1]),), ())):
+                    ft = feats
                 okrow = d.get("id") == idt and d.get("label") == lab and ft == feats and set(d) == {"id", "label", "features"}
             wr = f["writer"]
             okw = wr is not None and wr.name == "json.dump"
@@ -348,7 +365,17 @@ def check_converters(rep, repo):
             wr = f["writer"]
             delim = {"opf2txt": " ", "opf2csv": ","}[name]
             okw = wr is not None and wr.name == "numpy.savetxt" and dict(wr.kwargs).get("delimiter") == ("const", delim) \
-                and set(dict(wr.kwargs)) <= {"delimiter"}
+                and set(dict(wr.kwargs)) <= {"delimiter", "fmt"} and dict(wr.kwargs).get("fmt", ("const", "%.18e")) == ("const", "%.18e")  # (the default format spelt out)
+            if okw and len(wr.args) > 1:
+                # ... and the table is not narrowed on the way: a dtype / astype other than double loses digits
+                from ..ir import subterms as _sub
+                wide = {("mod", "numpy.float64"), ("mod", "numpy.double"), ("builtin", "float"), ("const", "float64"), ("const", "float"),
+                        ("mod", "numpy.longdouble")}
+                for u in _sub(wr.args[1]):
+                    if u[0] == "call" and dict(u[3]).get("dtype") is not None and dict(u[3])["dtype"] not in wide:
+                        okw = False
+                    if u[0] == "call" and u[1][0] == "attr" and u[1][2] == "astype" and (not u[2] or u[2][0] not in wide):
+                        okw = False
             f["delimiter"] = dict(wr.kwargs).get("delimiter") if wr is not None else None
             if okw and f.get("rows_list") is not None:
                 # ... and what it writes is the list the rows were placed in
